@@ -14,6 +14,17 @@ for f in L:
 fixed='\n'.join(rows)
 seeds=open('/verif/seeded/RESULTS.md').read()
 seeds=seeds[seeds.index('| seed'):]
+props={json.loads(l)['id']:json.loads(l) for l in open('/verif/properties.jsonl')}
+perprop=[]
+import os
+for pid in sorted(props):
+    ep='/verif/evidence/%s.json'%pid
+    if not os.path.exists(ep): continue
+    e=json.load(open(ep)); c=e['coverage']
+    mc='; '.join('%s: %s distinct states'%(m['config'].split(' ')[0],m['distinct_states']) for m in c.get('model_checking_runs',[]))
+    perprop.append('#### %s - %s\n\n%s\n\n*Assumptions:* %s\n\n*Last committed run (%s tier, seed %s):* %s events validated against the real code, %s distinct non-trivial cases, %s TLC states in total; model checking: %s. Known findings seen: %s.\n' % (
+        pid, props[pid]['title'], c.get('rule',''), ' / '.join(e.get('assumptions',[])) or 'none', e['tier'], e['seed'], c.get('traces_validated_against_impl'), c.get('distinct_nontrivial'), c.get('states'), mc or 'none', c.get('known_findings_seen') or 'none'))
+perprop='\n'.join(perprop)
 sec='''## 10. As built
 
 ### 10.1 Inventory
@@ -61,6 +72,12 @@ all), and every quick check was run on the unchanged tree with several `VERIF_SE
   rendering relation, a *reference decoder written from the format description* and model-checked against every
   rendering, and the writer contract; a counterexample there is an input, not a model trace of the reader's
   variables. Every verdict still comes from the real code.
+* **Hooks.** Built: `verif_on.go` / `verif_off.go` (scanner and block-reader wrappers, table fingerprint, event hook
+  variable) and one-line `verifEmit` calls in the SRT, WebVTT, SSA and STL reader loops. They fire at the *top* of the
+  iteration (the state left by the previous lines, which is what the model's `Obs` reports), keyed by the
+  `io.Reader`. No hooks were added to the teletext reader: its page assembly is specified normatively
+  (`Teletext.Expected`) and checked against by-construction truths instead. The random drivers use `math/rand`
+  with `VERIF_SEED`; `pgregory.net/rapid` is not used.
 * **Known-finding predicates** live in the trace specification that judges the event (`TraceStl`: `ReplaceCp`;
   `TraceSession`: `SwapAll`), not in a separate `Deviations.tla`.
 * **C16** is decided by TLC on the structured instant grid and the model-checked codec laws; the Apalache lemma
@@ -147,9 +164,15 @@ reader result, a re-read instant, a dropped scanner token, a result digest, an o
 a converted file). Every trace specification must flag exactly the corrupted event: 15 trace specifications, 30
 corrupted events, all rejected (`selftest_result.json`, 6 minutes).
 
+### 10.8 Per property: what the check enumerates, how it is bound, what the last run covered
+
+(generated from `evidence/*.json`, i.e. from what the checks themselves report)
+
+%s
+
 ---------------------------------------------------------------------------------------------------
 
-''' % (fixed, seeds)
+''' % (fixed, seeds, perprop)
 s=s.replace('## Appendix A', sec+'## Appendix A',1)
 open(p,'w').write(s)
 print(len(rows))
